@@ -478,6 +478,7 @@ func (e *Explorer) worker() {
 				}
 				next = append(next, st.Post)
 			}
+			s.Leaves = nil // expanded: the leaf list is not needed any more (memory)
 			if capped {
 				break
 			}
